@@ -67,7 +67,7 @@ type yearCase struct{ Y int }
 
 var structure = ev.Register(&ev.P[yearCase]{
 	Name: "table_structure_and_adjacency",
-	Rule: "every year's table (hot years quick, all 1..9998 thorough); oracle: 31 entries keyed in the canonical order DA_XUE..JING_ZHE, strictly increasing, consecutive gaps within [14.6, 15.8] days, each Solar entry is the float Julian Day of LunarYear.GetJieQiJulianDays rounded to the second, and entries 24..30 equal entries 0..6 of the next year's table to the second; non-trivial: every year (each table has 30 gaps and 7 shared entries); distinct = year",
+	Rule: "every year's table 1..9998 (both tiers); oracle: 31 entries keyed in the canonical order DA_XUE..JING_ZHE, strictly increasing, consecutive gaps within [14.6, 15.8] days, each Solar entry is the float Julian Day of LunarYear.GetJieQiJulianDays rounded to the second, and entries 24..30 equal entries 0..6 of the next year's table to the second; non-trivial: every year (each table has 30 gaps and 7 shared entries); distinct = year",
 	Check: func(c yearCase) error {
 		y := c.Y
 		l := calendar.NewSolarFromYmd(y, 6, 1).GetLunar()
@@ -360,9 +360,6 @@ func TestC03(t *testing.T) {
 		for y := 1; y <= 9998; y++ {
 			years = append(years, y)
 		}
-		structure.Exhaustive("every year 1..9998")
-		root.Exhaustive("every (year 1..9998, entry 0..30)")
-		independent.Exhaustive("every (year 1..3000, entry 0..30)")
 		lookups.Exhaustive("every term instant of every year with offsets {0,+-1 s, day start, day end, +-1 day noon}")
 	}
 	deltaT.Exhaustive("every half year 1..3000")
@@ -372,7 +369,11 @@ func TestC03(t *testing.T) {
 			deltaT.Eval(dtCase{y, true})
 		}
 	}
-	for _, y := range years {
+	// structure, root and independent-sun checks are cheap: whole domain in both tiers
+	structure.Exhaustive("every year 1..9998")
+	root.Exhaustive("every (year 1..9998, entry 0..30)")
+	independent.Exhaustive("every (year 1..3000, entry 0..30)")
+	for y := 1; y <= 9998; y++ {
 		if !ev.Mine(y) {
 			continue
 		}
@@ -382,6 +383,11 @@ func TestC03(t *testing.T) {
 			if y <= 3000 {
 				independent.Eval(termCase{y, i})
 			}
+		}
+	}
+	for _, y := range years {
+		if !ev.Mine(y) {
+			continue
 		}
 		if !ev.Thorough() && y%3 != 0 && y != 1582 {
 			continue
